@@ -113,6 +113,30 @@ Theorem C19_resolve_take_this_other :
 Proof. exact resolve_take. Qed.
 Print Assumptions C19_resolve_take_this_other.
 
+(* moves and renames: the file ends up where the side that moved it put it (directory and name are
+   resolved separately); the merged file, its helpers and the conflict record all hang on that one
+   path ([p_at]: text_merge dumps the helpers under final_parent/final_name) *)
+Theorem C19_final_place :
+  forall o pb po pt b t ot rs pl,
+    merge_placed o pb po pt b t ot rs = Some pl ->
+    merge_file o b t ot rs (wt0 t) = Some (p_wt pl)
+    /\ p_at pl = final_place pb po pt
+    /\ (in_dst pb = in_dst po -> in_dst (p_at pl) = in_dst pt)
+    /\ (in_dst pb = in_dst pt -> in_dst (p_at pl) = in_dst po)
+    /\ (renamed pb = renamed po -> renamed (p_at pl) = renamed pt)
+    /\ (renamed pb = renamed pt -> renamed (p_at pl) = renamed po).
+Proof.
+  intros o pb po pt b t ot rs pl H. destruct (merge_placed_spec _ _ _ _ _ _ _ _ _ H) as [A B].
+  split; [exact A|]. split; [exact B|]. rewrite B. apply final_place_spec.
+Qed.
+Print Assumptions C19_final_place.
+
+(* merge3 is run as a cherrypick unless BASE is an ancestor of both THIS and OTHER *)
+Theorem C19_cherrypick_flag :
+  forall a b, cherrypick_flag a b = false <-> a = true /\ b = true.
+Proof. exact cherrypick_flag_spec. Qed.
+Print Assumptions C19_cherrypick_flag.
+
 (* the merge raises exactly for reprocess + show_base when text_merge is consulted *)
 Theorem C19_merge_raises_iff :
   forall o b t ot rs,
